@@ -70,3 +70,55 @@ fn c02_k1_coord_lookup() {
     kani::cover!(y >= 851, "chords-v2 virtual coordinate");
     core::mem::forget(l);
 }
+
+// @harness name=c01_k3_queue_overflow prop=C01,C02,C04 tier=quick timeout=1800
+// @encodes Layout::event (queue-overflow path: waiting_into_hold for every slot, dequeue of the evicted event), Layout::dequeue (Release arm)
+// @inst Layout<3, 2, u8>
+// @bounds the 32-slot event queue is full: the oldest entry is the release of key (0,1), the other 31 are presses of (0,2) with symbolic ages; the key (0,1) is held (one key state); nothing is waiting; a 33rd event arrives (symbolic press or release of a symbolic key)
+// @assumes none beyond the bounds
+// @spec a flood larger than the queue loses nothing: the evicted (oldest) event is processed at once -- here the held key is released -- and the queue stays full with the new event at its end; no panic
+#[kani::proof]
+#[kani::unwind(35)]
+fn c01_k3_queue_overflow() {
+    let mut l: Layout<'static, 3, 2, u8> = vk_layout_literal(&VK_SRC, &VK_LAYERS);
+    let _ = l.states.push(NormalKey { keycode: KeyCode::B, coord: (0, 1), flags: NormalKeyFlags(0) });
+    let _ = l.queue.push_back(Queued { event: Event::Release(0, 1), since: kani::any() });
+    let mut k = 1;
+    while k < 32 {
+        let _ = l.queue.push_back(Queued { event: Event::Press(0, 2), since: kani::any() });
+        k += 1;
+    }
+    assert!(l.queue.is_full());
+    let e = vk_any_event(3);
+    l.event(e);
+    assert!(l.states.is_empty(), "the evicted release is applied immediately: the key does not stay down");
+    assert!(l.queue.len() == 32);
+    assert!(l.queue[31].event == e && l.queue[31].since == 0, "the new event is queued last");
+    assert!(l.queue[0].event == Event::Press(0, 2), "exactly the oldest event was evicted");
+    core::mem::forget(l);
+}
+
+// @harness name=c01_k3_queue_overflow_waiting prop=C01,C05 tier=quick timeout=1800
+// @encodes Layout::event (queue-overflow path), Layout::waiting_into_hold, do_action (KeyCode arm), Layout::dequeue (Release arm)
+// @inst Layout<3, 2, u8>
+// @bounds the queue is full (oldest entry: release of a key that is not down), no key state yet, and a tap-hold decision is pending for key (0,0) (constant hold = lsft, symbolic timing)
+// @assumes delay + ticks of the pending key < 65535
+// @spec when the queue overflows every pending tap-hold is resolved as HOLD (exactly once, slot emptied) and then the evicted event is processed: afterwards the hold key (and nothing else) is down
+#[kani::proof]
+#[kani::unwind(35)]
+fn c01_k3_queue_overflow_waiting() {
+    let mut l: Layout<'static, 3, 2, u8> = vk_layout_literal(&VK_SRC, &VK_LAYERS);
+    l.waiting = Some(vk_da_waiting((0, 0)));
+    let _ = l.queue.push_back(Queued { event: Event::Release(0, 1), since: kani::any() });
+    let mut k = 1;
+    while k < 32 {
+        let _ = l.queue.push_back(Queued { event: Event::Press(0, 2), since: kani::any() });
+        k += 1;
+    }
+    l.event(Event::Press(0, 2));
+    assert!(l.waiting.is_none(), "the pending decision is forced");
+    assert!(l.states.len() == 1, "exactly the hold action was performed");
+    assert!(matches!(l.states[0], NormalKey { keycode: KeyCode::LShift, coord: (0, 0), .. }), "forced to HOLD, not tap");
+    assert!(l.queue.len() == 32);
+    core::mem::forget(l);
+}
